@@ -227,6 +227,11 @@ var c18Types = map[string]c18Driver{
 	"strkey-struct-with-string": c18Make(func(spec int64, p int) c18StrStruct {
 		return c18Via(c18StrStruct{S: c18Str(spec, p), N: int(spec % 3)}, p)
 	}, func(k c18StrStruct) string { return k.S + "/" + strconv.Itoa(k.N) }),
+	// the string form is the field itself, so it can be the empty string (built as a literal, from an
+	// empty byte slice, or as an empty substring of a run-time string: different data pointers)
+	"strkey-struct-string-form-may-be-empty": c18Make(func(spec int64, p int) c18StrStruct {
+		return c18Via(c18StrStruct{S: c18Str(spec%3, p)}, p)
+	}, func(k c18StrStruct) string { return k.S }),
 	"strkey-float": c18Make(func(spec int64, p int) float64 {
 		return c18Via(float64(spec)/4, p)
 	}, func(k float64) string { return strconv.FormatFloat(k, 'g', -1, 64) }),
@@ -292,7 +297,7 @@ func execC18(c c18Case, x *verifkit.Ctx) (fail *verifkit.Failure) {
 func TestVerifC18(t *testing.T) {
 	verifkit.Run(t, verifkit.Spec[c18Case]{
 		ID: "C18", Gen: genC18, Exec: execC18,
-		Rule: fmt.Sprintf("C18: rapid draws one of %d key types (all integer widths, bool, pointer, string, a named string type, arrays, structs with and without padding, nested; with a StringKey function: struct with a string field, float64, and a constant function that makes every hash collide), up to 12 distinct key specs including zero and extreme values, and up to 60 Set/Get/Delete operations, each building its key along one of 5 construction paths (literal/field-wise, reflect, channel, map, array slot; strings: fresh backing array, builder, substring); reference map[K]V; non-trivial = at least two keys stored and a key built along a non-literal path", len(c18Types)),
+		Rule: fmt.Sprintf("C18: rapid draws one of %d key types (all integer widths, bool, pointer, string, a named string type, arrays, structs with and without padding, nested; with a StringKey function: struct with a string field, the same struct with the field itself as string form - which can be empty -, float64, and a constant function that makes every hash collide), up to 12 distinct key specs including zero and extreme values, and up to 60 Set/Get/Delete operations, each building its key along one of 5 construction paths (literal/field-wise, reflect, channel, map, array slot; strings: fresh backing array, builder, substring); reference map[K]V; non-trivial = at least two keys stored and a key built along a non-literal path", len(c18Types)),
 		Assumptions: []string{
 			"the cache is large enough never to evict; keys are key-tagged so aliasing is distinguishable from staleness",
 			"quick tier: default toolchain (xxh3 over key memory); thorough tier additionally under go1.26.8 (maphash.Comparable)",
